@@ -340,7 +340,11 @@ def obname_none_check():
 def dtime_check(y, mo, d, h, mi, s, ms_from_k3):
     """All fields except the millisecond (float kernel K3, engine B) are checked here; the microsecond is fixed to a
     value whose rounding is exact so the float expression collapses."""
-    dt = FakeDT(y, mo, d, h, mi, s, ms_from_k3 * 1000)
+    # the object handed in carries OTHER (local-time) calendar fields; only its conversion to UTC has y, mo, d, ...:
+    # every written field must come from the UTC instant
+    utc = FakeDT(y, mo, d, h, mi, s, ms_from_k3 * 1000)
+    dt = FakeDT(1999 if y != 1999 else 2001, 1 if mo != 1 else 2, 28 if d != 28 else 27, 23 if h != 23 else 22,
+                59 if mi != 59 else 58, 59 if s != 59 else 58, 999000, utc=utc)
     r = write_struct(RepC.DTIME, dt)
     b = lits(r)
     if b is None or len(b) != 8:
@@ -372,3 +376,55 @@ def reach_dtime(y: int, mo: int, d: int, h: int, mi: int, s: int) -> int:
     post: _ != 0
     """
     return dtime_check(y, mo, d, h, mi, s, 0)
+
+
+# ------------------------------------------------------------------------------------------- boundary windows
+# Bit operators make CrossHair realise integers, so a change such as ``value | OFFSET`` for ``value + OFFSET`` turns the
+# all-integers obligations above into "Not confirmed".  The windows around every threshold are therefore also decided by
+# enumeration (the solver picks each value of the window; 5 values per edge).
+
+try:
+    from crosshair import realize
+except ImportError:                                    # plain interpreter
+    def realize(x):
+        return x
+
+UV_EDGES = [0, 127, 128, 16383, 16384, 1073741823, 1073741824, 2147483648, 4294967295, 4294967296]
+N_UV_EDGES = len(UV_EDGES)
+
+
+def ob_uvari_edges(k: int, d: int) -> int:
+    """
+    pre: 0 <= k < N_UV_EDGES and -2 <= d <= 2
+    post: _ == 0
+    """
+    return uvari_check(realize(UV_EDGES[k] + d))
+
+
+def reach_uvari_edges(k: int, d: int) -> int:
+    """
+    pre: 0 <= k < N_UV_EDGES and -2 <= d <= 2
+    post: _ != 0
+    """
+    return uvari_check(realize(UV_EDGES[k] + d))
+
+
+INT_EDGES = [-2147483648, -32768, -128, 0, 127, 255, 32767, 65535, 2147483647, 4294967295]
+N_INT_EDGES = len(INT_EDGES)
+
+
+def ob_fixed_int_edges(ci: int, k: int, d: int) -> int:
+    """
+    pre: 0 <= ci < 6 and 0 <= k < N_INT_EDGES and -1 <= d <= 1
+    post: _ == 0
+    """
+    return fixed_int_check(realize(ci), realize(INT_EDGES[k] + d))
+
+
+def ob_obname_edges(k: int, d: int, copy: int, n: int) -> int:
+    """
+    pre: 0 <= k < N_UV_EDGES and -1 <= d <= 1
+    pre: 254 <= copy <= 256 and 254 <= n <= 256
+    post: _ == 0
+    """
+    return obname_check(realize(UV_EDGES[k] + d), realize(copy), realize(n), False)
